@@ -214,6 +214,10 @@ pub fn build(r: &RawSyms) -> Built {
                 (0, 0) => Ln::st(St::Ins("rjmp".into(), vec![Opnd::Ex(sym)])),
                 (1, 0) => Ln::st(St::Ins("lds".into(), vec![Opnd::Reg(action % 32), Opnd::Ex(sym)])),
                 (1, 2) => Ln::st(St::Ins("sts".into(), vec![Opnd::Ex(sym), Opnd::Reg(action % 32)])),
+                // a use whose value does not depend on the symbol is a use all the same: an undefined
+                // name there must fail the build
+                (0..=4, 2) if action & 16 != 0 => Ln::st(St::Data(DKind::Dw, vec![DItem::Ex(E::bin(BinOp::LAnd, E::Num(0), sym)), DItem::Ex(E::bin(BinOp::LOr, E::Num(5), E::sym(sp)))])),
+                (0..=4, 3) if action & 16 != 0 => Ln::st(St::Ins("ldi".into(), vec![Opnd::Reg(16 + action % 16), Opnd::Ex(E::bin(BinOp::Mul, E::Fn(Func::Low, Box::new(sym)), E::Num(0)))])),
                 (_, 1) => Ln::st(St::Ins("ldi".into(), vec![Opnd::Reg(16 + action % 16), Opnd::Ex(E::Fn(Func::Low, Box::new(sym)))])),
                 (_, 3) => Ln::st(St::Data(DKind::Dd, vec![DItem::Ex(E::bin(BinOp::Add, sym, E::Num(1)))])),
                 _ => Ln::st(St::Data(DKind::Dw, vec![DItem::Ex(E::Fn(Func::Lwrd, Box::new(sym)))])),
